@@ -10,6 +10,10 @@ CLAIMED = {
    technique="bounded exhaustive enumeration of closed UPLC terms, each executed on the real evaluator and on an independent reference CEK machine",
    text="Every closed term up to a size bound (full alphabet: size<=5 quick / <=6 thorough; small alphabet two sizes deeper) under each of the five semantics variants is evaluated by the real machine and by a reference CEK machine written from the specification; results (discharged value or failure) must coincide. Complete within the bound, silent beyond it.",
    note="trusted: the reference machine vcore::cek_ref (own term type, persistent environments, spec-style discharge) and the spec-transcribed builtin signature table; builtin denotations beyond the 8 in the alphabet are C04's job"),
+ "C04": dict(engine="h_uplc", design_ref="DESIGN.md §4 C04",
+   technique="bounded exhaustive enumeration of saturated builtin applications (full cartesian product of per-position boundary sets x 5 semantics variants) on the real evaluator; oracle: independent Python denotations written from the builtin specification; BLS12-381 by exhaustive algebraic laws over a point x scalar alphabet",
+   text="For each of the 72 non-BLS builtins the full cartesian product of per-argument boundary sets (integers around 2^31/2^63/2^64/2^127/2^128 and the 8192-byte limits, byte strings at 0/1/31/32/33/64/255/256 bytes, non-ASCII strings, Data in every tag encoding, lists, pairs, wrong-typed and non-constant arguments; 211k tuples quick, 560k thorough) is evaluated under each of the variants A-E through Program::eval_version_with_protocol and compared (value or failure) with a Python model of the specification; every application is evaluated twice (determinism, incl. cost). The 17 BLS12-381 builtins are checked by group laws, scalar multiplication vs repeated addition, group order, canonical encodings under every single-bit flip, bilinearity and multi-scalar multiplication = sum, over a point x scalar alphabet (6k law instances quick).",
+   note="trusted: /verif/oracle/*.py (self-tested against worked examples of CIP-121/122/123, hashlib and RFC vectors); the oracle answers `undefined` (counted, not compared) where the variant-specific rule could not be confirmed offline (shift/rotate amounts outside i64 under variant E, some dropList/serialiseData classes); BLS correctness only up to the laws; cost is not modelled (an expected value whose literal-size cost exceeds the harness budget is counted as inconclusive)"),
  "C05": dict(engine="h_uplc", design_ref="DESIGN.md §4 C05",
    technique="bounded exhaustive enumeration of closed UPLC terms x slippages x budgets on the real machine; oracle: accounting identity from an independent reference machine's step/builtin-call counts, threshold law, golden budgets, size-bucket relations",
    text="For every closed term up to the size bound that terminates (per the reference machine), under each semantics variant: the charged cost equals startup + sum over step kinds of count x step cost + the costs of the saturated builtin calls, with counts and call arguments taken from the independent reference machine; the cost is identical for 9 slippage values; for 7 budgets around the exact cost evaluation succeeds iff the budget covers the cost component-wise (OutOfExError otherwise, remaining budget never negative); the 655 V3 conformance budget goldens are reproduced exactly; and for every size-costed builtin, arguments of equal size measure cost the same and cost is monotone across bucket boundaries.",
